@@ -241,8 +241,10 @@ def _run_unit_once(unit, tier, seed, carry):
     extra_shims = dict(res.get('auto_shims') or {})
     havoc = list(res.get('auto_havoc_decls') or [])
     try:
-        text, table, meta = assemble(os.path.join(VERIF, cfg['template']), extra_shims=extra_shims, havoc_decls=havoc)
-        ctext, ctable, _ = assemble(os.path.join(VERIF, cfg['template']), canary=True, extra_shims=extra_shims, havoc_decls=havoc)
+        degrade = bool(carry.get('degrade'))
+        res['degraded'] = degrade
+        text, table, meta = assemble(os.path.join(VERIF, cfg['template']), extra_shims=extra_shims, havoc_decls=havoc, degrade=degrade)
+        ctext, ctable, _ = assemble(os.path.join(VERIF, cfg['template']), canary=True, extra_shims=extra_shims, havoc_decls=havoc, degrade=degrade)
     except LiftError as e:
         res['status'] = 'undecided'
         res['undecided'].append(f'lift: {e}')
@@ -375,6 +377,7 @@ def _unsupported(diags):
         if h:
             decl = '\n'.join(l.strip() for l in h.group(1).splitlines() if l.strip())
             decl = decl.replace('#[verifier::external_type_specification]', '#[verifier::external_type_specification]\n#[verifier::external_body]')
+            decl = re.sub(r'\[[\w:]+::<impl (.+?)>::(\w+)\] \(', r'[<\1>::\2] (', decl)
             decls.append(decl)
             paths.append(pth)
     return methods, decls, paths
@@ -385,24 +388,38 @@ def run_unit(unit, tier='quick', seed=0):
     real contract (SHIM_TABLE) or (b) the verifier's own suggested declaration, unconstrained (auto-havoc)."""
     carry = {}
     r = None
-    for _round in range(4):
+    first = None
+    for _round in range(6):
         r = _run_unit_once(unit, tier, seed, carry)
+        if first is None:
+            first = r
         und = [u for u in r['undecided'] if 'is not supported' in u]
-        if not und:
-            break
-        methods, decls, paths = _unsupported(r.get('_diags', []))
         new = False
-        for mname in methods:
-            if mname in SHIM_TABLE and mname not in carry.setdefault('auto_shims', {}):
-                carry['auto_shims'][mname] = SHIM_TABLE[mname]
-                new = True
-        for dcl, pth in zip(decls, paths):
-            if dcl not in carry.setdefault('auto_havoc_decls', []):
-                carry['auto_havoc_decls'].append(dcl)
-                carry.setdefault('auto_havoc', []).append(pth)
-                new = True
+        if und:
+            methods, decls, paths = _unsupported(r.get('_diags', []))
+            for mname in methods:
+                if mname in SHIM_TABLE and mname not in carry.setdefault('auto_shims', {}):
+                    carry['auto_shims'][mname] = SHIM_TABLE[mname]
+                    new = True
+            for dcl, pth in zip(decls, paths):
+                if dcl not in carry.setdefault('auto_havoc_decls', []):
+                    carry['auto_havoc_decls'].append(dcl)
+                    carry.setdefault('auto_havoc', []).append(pth)
+                    new = True
+        # ghost text (invariants / hints) that no longer compiles against the lifted code: retry on pre/postconditions alone
+        if not new and not carry.get('degrade') and r['status'] == 'undecided' and \
+                any(u.startswith('verifier front-end:') and ('at None:None' in u or 'at template:' in u) for u in r['undecided']):
+            carry['degrade'] = True
+            new = True
         if not new:
             break
+    if r['status'] == 'undecided' and carry.get('degrade') and any(u.startswith('verifier front-end:') or u.startswith('lift') for u in r['undecided']):
+        r = first   # the weakened attempts did not get past the front end either: report the plain run
+    if r.get('degraded'):
+        # with the invariants dropped, loop well-formedness / termination failures are artefacts of the weakening
+        r['failures'] = [f for f in r['failures'] if not ('invariant' in f['kind'] or 'decreases' in f['kind'] or 'termination' in f['kind'])]
+        if not r['failures'] and not r['undecided']:
+            r['status'] = 'ok'
     r.pop('_diags', None)
     return r
 
@@ -410,6 +427,8 @@ def run_unit(unit, tier='quick', seed=0):
 def print_unit_result(r):
     print(f"unit {r['unit']}: {r['status']}  obligations={r.get('obligations')} discharged={r.get('discharged')} "
           f"verified_fns={r.get('verus_verified')} canary={r.get('canary')} smt_ms={r.get('smt_time_ms')} wall={r.get('wall_s', 0):.1f}s")
+    if r.get('degraded'):
+        print('  degraded mode: loop invariants / proof hints dropped (they do not type-check against the lifted code)')
     if r.get('auto_havoc') or r.get('auto_shims'):
         print('  auto-repair: shims', sorted((r.get('auto_shims') or {}).keys()), 'unconstrained std functions', r.get('auto_havoc'))
     for u in r['undecided']:
@@ -453,7 +472,7 @@ def check_property(pid, tier='quick', seed=0):
     kf_lines = rp.known_finding_lines(pid, kf, results)
     nviol = 0
     seen = set()
-    havocked = {r['unit']: r.get('auto_havoc', []) for r in results}
+    havocked = {r['unit']: (list(r.get('auto_havoc', [])) + (['<loop invariants and proof hints dropped: they no longer type-check against the lifted code>'] if r.get('degraded') else [])) for r in results}
     for unit, f in violations:
         key = (unit, f['obligation'])
         if key in seen:
@@ -463,7 +482,7 @@ def check_property(pid, tier='quick', seed=0):
         if havocked.get(unit) and not found:
             # the obligation fails in a run where std functions unknown to the contract library were left unconstrained:
             # without a failing input replayed on the real code this is "cannot decide", not a violation
-            undecided.append(f"{unit}: {f['obligation']} fails with unconstrained std function(s) {havocked[unit]} and no failing input was found on the real code")
+            undecided.append(f"{unit}: {f['obligation']} fails in a weakened run {havocked[unit]} and no failing input was found on the real code")
             continue
         nviol += 1
         lines.append(f'VIOLATION property={pid} replay={path}' + ('' if found else ' no-failing-input-found'))
